@@ -15,6 +15,11 @@ EMPTY = "t:00000000"
 DIRECT = "x:" + hx("direct")
 
 
+def xdecl_of(name):
+    """The nowait declare that yields an `Exchange` handle for `name` (direct, no options)."""
+    return (40, 10, ["n:0", name, DIRECT, "b:f", "b:f", "b:f", "b:f", "b:t", EMPTY])
+
+
 def spec(op, a, ch):
     """Expected submissions of one API call, from the AMQP field lists and amiquip's documentation:
     list of (cls, mid, fields) methods (publish content is checked separately)."""
@@ -115,6 +120,30 @@ def monitor(case, il, sl):
             deliveries[t[1]] = (int(t[2]), int(t[3]))
         elif t[0] == "rep" and t[2] == "err":
             pending_err.add(int(t[1]))
+        elif t[0] == "call2":
+            # Exchange handles from two channels: `me` is declared (nowait) on ch, `other` on ch2, and
+            # the bind / unbind itself goes out on ch - the channel of the handle the call was made on
+            ch, ch2, op, a = int(t[1]), int(t[2]), t[3], t[4:]
+            sent = [l.split() for l in g[1:] if l.startswith("sent") and l.split()[3] == "method"]
+            if g[0] == "ret PANIC":
+                return ("`%s` panicked" % o[:100], "c12-panic")
+            exp = spec(op, a, ch)
+            last = exp[-1]
+            want = []
+            if a[0] != "x:-":
+                want.append((ch, xdecl_of(a[0])))
+            if a[1] != "x:-":
+                want.append((ch2, xdecl_of(a[1])))
+            want.append((ch, last))
+            want = [(c, [str(m[0]), str(m[1])] + m[2]) for c, m in want]
+            got = [(int(w[1]), w[5:]) for w in sent]
+            if dead or ch in pending_err or ch2 in pending_err or g[0].startswith("ret err"):
+                pending_err.discard(ch); pending_err.discard(ch2)
+                if sorted(got) != sorted(want)[:len(got)] and not all(x in want for x in got):
+                    return ("`%s` (failing call) submitted %s, its arguments describe %s" % (o[:100], got, want), "c12-fields")
+                continue
+            if sorted(got) != sorted(want):
+                return ("`%s` submitted %s; its arguments describe exactly %s (channel, method)" % (o[:120], got, want), "c12-channel")
         elif t[0] == "call":
             ch, op, a = int(t[1]), t[2], t[3:]
             if op == "consume" and g[0].startswith("ret consumer"):
@@ -200,5 +229,5 @@ def gen(tier, seed):
 
 
 def suites(tier, seed):
-    return [Suite("api", "api", lambda: gen(tier, seed), monitor=monitor, nontrivial=nontrivial, canon=apigen.canon,
+    return [Suite("api", "api", lambda: gen(tier, seed), monitor=monitor, nontrivial=nontrivial, canon=apigen.canon, shards=4, timeout=60,
                   rule="directed cross-channel ack/nack/reject cases for every acknowledging entry point (Delivery::* and Consumer::*) + random sessions over 36 kinds of public operations on 1-3 channels (Channel, Queue, Exchange, Consumer, Delivery, Connection), every boolean option drawn independently, strings incl. empty / 255 bytes / multibyte UTF-8, nested field tables, all 14 message properties, numeric extremes; synchronous calls answered by pre-loaded replies (4% of a wrong type), some after the I/O side is gone or with an error queued")]
